@@ -238,4 +238,111 @@ example : ∃ n decls l env', Xform.toStatement 100
       (.ok (.libraryDef n decls l), env') ∧ locs decls = [] :=
   ⟨_, _, _, _, rfl, rfl⟩
 
+/-! ## 7–8. `eval_ast`: the position reported for a failing top-level form -/
+
+/-- an error that arose while READING a library source (`factoryOfText`): its position, if any,
+refers to the library text — the one kind of position that is not a position of the program.
+(With `Lexer::without_locations` only the lexer's own errors are still located.) -/
+abbrev LibReadErr (e : SErr) : Prop := InterpLoc.LibReadErr e
+
+/-- The exact shape of every error `eval_ast` reports for a statement `s`: either it carries the
+statement's own position `s.loc` (the fallback for errors that had none), or a position `l` that
+ * for an unbound variable is the position of an identifier (`ident`) of `s` or of code already in
+   the state, or of an export spec of a library definition in the state,
+ * for a non-procedure is the position of an operator of `s` or of code already in the state,
+ * for a cyclic import or a missing library is the position of a library name in an import
+   declaration of `s` or of a library definition in the state,
+or it is an error from reading a library source. -/
+theorem error_kind_and_position {fuel : Nat} {st st' : State} {s : Statement} {k : Err} {loc : Loc}
+    (h : evalAst fuel st s = (.error (k, loc), st')) :
+    loc = s.loc ∨ ∃ l, loc = some l ∧
+      ((k = .unbound ∧ ((Role.ident, l) ∈ st.rlocs ++ s.rlocs ∨ (Role.export, l) ∈ st.rlocs ++ s.rlocs)) ∨
+       (k = .nonProcedure ∧ (Role.operator, l) ∈ st.rlocs ++ s.rlocs) ∨
+       ((k = .cyclic ∨ k = .libNotFound) ∧ (Role.libname, l) ∈ st.rlocs ++ s.rlocs) ∨
+       LibReadErr (k, some l)) := by
+  have i := InterpLoc.evalAst_in (T := st.rlocs ++ s.rlocs) InterpLoc.factoryOfText_clean h
+    (InterpLoc.stIn_iff.2 (List.subset_append_left _ _)) (List.subset_append_right _ _)
+  obtain ⟨loc0, hk, rfl⟩ := i.2 k loc rfl
+  cases loc0 with
+  | none => left; cases s.loc <;> rfl
+  | some l => right; exact ⟨l, rfl, hk l rfl⟩
+
+/-- `located_errors_are_in_form_for_other_kinds`: an error of any kind other than unbound
+variable, non-procedure, cyclic import or missing library (and not raised while reading a library
+source) is reported exactly at the statement's own position — the position of the form. -/
+theorem located_errors_are_in_form_for_other_kinds {fuel : Nat} {st st' : State} {s : Statement}
+    {k : Err} {loc : Loc} (h : evalAst fuel st s = (.error (k, loc), st'))
+    (h1 : k ≠ .unbound) (h2 : k ≠ .nonProcedure) (h3 : k ≠ .cyclic) (h4 : k ≠ .libNotFound)
+    (h5 : ∀ l, ¬ LibReadErr (k, some l)) : loc = s.loc := by
+  rcases error_kind_and_position h with h | ⟨l, -, h | h | h | h⟩
+  · exact h
+  · exact absurd h.1 h1
+  · exact absurd h.1 h2
+  · rcases h.1 with h | h
+    · exact absurd h h3
+    · exact absurd h h4
+  · exact absurd h (h5 l)
+
+/-- `(vector-ref (vector) 1)`-like faults: here `((lambda (x) x))` at 2:2, an arity error — reported
+at the form -/
+example : (evalAst 9 { store := demoStore } (.expr (.call (.lambda (.mk ⟨["x"], none⟩ [] [.sym "x" (some (2, 14))])
+    (some (2, 3))) [] (some (2, 2))))).1 = .error (.arity, some (2, 2)) := by
+  simp [evalAst, evalExprOrDef, evalExpr, evalArgs, applyProcedure, applyLoop, procArity, arityOk,
+    Lambda.formals, Statement.loc, Expr.loc]
+
+/-- MAIN. Let `s` be the statement made from a top-level datum `d` of the program, evaluated in a
+state all of whose code positions are in `T` (the positions of the EARLIER forms of the same text;
+bundled and user libraries contribute none, `library_code_unlocated`). If `eval_ast` fails with
+`(k, loc)` then
+ * every reported position is a position of the failing form `d`, or of an earlier form (`T`) —
+   or the error arose while reading a library source;
+ * a position is reported whenever the statement has one (`xform_stmt_loc`: `s.loc = d.loc`,
+   the form's first token, unless `d` is a `set!` or a macro use);
+ * the state afterwards holds positions of `T` and of `d` only — the hypothesis for the next form. -/
+theorem error_loc_in_failing_form {T : List Pos} {fuel₀ fuel : Nat} {d : Datum}
+    {env env' : Xform.SynEnv} {s : Statement} {st st' : State} {k : Err} {loc : Loc}
+    (hx : Xform.toStatement fuel₀ d env = (.ok s, env')) (hst : LocsIn T st)
+    (h : evalAst fuel st s = (.error (k, loc), st')) :
+    (∀ l, loc = some l → l ∈ locs d ∨ l ∈ T ∨ LibReadErr (k, some l)) ∧
+    (s.loc ≠ none → loc ≠ none) ∧
+    LocsIn (T ++ locs d) st' := by
+  have hs : unrole s.rlocs ⊆ locs d := xform_locs hx
+  have hsub : unrole (st.rlocs ++ s.rlocs) ⊆ T ++ locs d := by
+    rw [unrole_append]
+    exact List.append_subset.2 ⟨fun l hl => List.mem_append_left _ (hst l hl),
+      fun l hl => List.mem_append_right _ (hs hl)⟩
+  have i := InterpLoc.evalAst_in (T := st.rlocs ++ s.rlocs) InterpLoc.factoryOfText_clean h
+    (InterpLoc.stIn_iff.2 (List.subset_append_left _ _)) (List.subset_append_right _ _)
+  refine ⟨fun l hl => ?_, fun hne => ?_, fun l hl => hsub (unrole_subset (InterpLoc.stIn_iff.1 i.1) hl)⟩
+  · subst hl
+    have key : ∀ r, (r, l) ∈ st.rlocs ++ s.rlocs → l ∈ locs d ∨ l ∈ T ∨ LibReadErr (k, some l) := by
+      intro r hr
+      rcases List.mem_append.1 (hsub (mem_unrole.2 ⟨r, hr⟩)) with h | h
+      · exact Or.inr (Or.inl h)
+      · exact Or.inl h
+    rcases error_kind_and_position h with h | ⟨l', hl', h⟩
+    · exact Or.inl ((xform_stmt_loc hx).1 l h.symm)
+    · cases hl'
+      rcases h with ⟨-, h | h⟩ | ⟨-, h⟩ | ⟨-, h⟩ | h
+      · exact key _ h
+      · exact key _ h
+      · exact key _ h
+      · exact key _ h
+      · exact Or.inr (Or.inr h)
+  · obtain ⟨loc0, -, rfl⟩ := i.2 k loc rfl
+    cases loc0 with
+    | none => cases hsl : s.loc with
+      | none => exact absurd hsl hne
+      | some p => simp
+    | some l => simp
+
+/-- a fault inside a procedure defined by an earlier form: `(f)` at line 2, `f` defined at line 1
+as `(define (f) y)`; the position reported, 1:13, is a position of the state (`T`), i.e. of the
+earlier form of the same text -/
+example : (evalAst 9 { store := demoStore } (.expr (.call (.sym "f" (some (2, 3))) [] (some (2, 2))))).1 =
+    .error (.unbound, some (1, 13)) := by
+  simp [evalAst, evalExprOrDef, evalExpr, evalArgs, applyProcedure, applyLoop, applyScheme, evalDefs,
+    evalBody, evalTail, bindFixed, procArity, demoStore, Store.lookup, Store.lookupAux, arityOk,
+    Lambda.formals, Store.newFrame, enter, leave, Lambda.defs, Lambda.body, List.lookup]
+
 end Ruschm.C15
